@@ -75,7 +75,17 @@ static Constraint_System rnd_cs(Rng& r, dimension_type n, bool nnc, unsigned max
   Constraint_System cs;
   if (n > 0) cs.insert(0 * Variable(n - 1) >= -1);   // fixes the space dimension; trivially true
   unsigned m = r.below(maxm + 1);
-  for (unsigned i = 0; i < m; ++i) cs.insert(rnd_con(r, n, nnc, big));
+  // one time in three: a cylinder (some variable does not occur at all, so the set has a line)
+  dimension_type skip = (n > 1 && r.chance(1, 3)) ? r.below((unsigned)n) : n;
+  for (unsigned i = 0; i < m; ++i) {
+    Constraint c = rnd_con(r, n, nnc, big);
+    if (skip < n && c.coefficient(Variable(skip)) != 0) {
+      Linear_Expression e(c.expression());
+      e -= c.coefficient(Variable(skip)) * Variable(skip);
+      if (c.is_equality()) cs.insert(e == 0); else if (c.is_strict_inequality()) cs.insert(e > 0); else cs.insert(e >= 0);
+    }
+    else cs.insert(c);
+  }
   return cs;
 }
 static Generator rnd_gen(Rng& r, dimension_type n, bool nnc, bool must_point) {
